@@ -337,6 +337,12 @@ fn parse_attributes(data: &str) -> Result<AttrMap, Error> {
             .collect::<Vec<_>>()
             .as_slice()
         {
+            // Las cadenas entre comillas se conservan como texto aunque parezcan números ("000000000", "2020")
+            if value.len() > 1 && value.starts_with('"') && value.ends_with('"') {
+                let text = value.trim_matches('"').trim().to_string();
+                attributes.0.insert(key.to_string(), text.into());
+                continue;
+            }
             // Valores simples o con paréntesis
             let value = if value.starts_with('(') && !value.ends_with(')') {
                 let mut values = vec![*value];
